@@ -27,7 +27,7 @@ type c01 struct{ base }
 
 func init() {
 	core.Register(c01{base{id: "C01", level: "exploration", quickB: 8, thoroughB: 32,
-		rule:        "connections to servers with ClearTextPassword(validator) or a custom failing AuthStrategy; validator outcome (accept / false / (false,error) / (true,error) / (nil ctx,false,error)) is a function of the password; start-up packets optionally carry an accepting password as surplus behind their parameter list; in place of the password message: every frontend type byte, unterminated / empty / sub-minimum / oversized / truncated bodies, immediate EOF; continuations (pipelined in the same segment, or late after the rejection was observed) of Q/P/B/D/E/S/X messages and random bytes; the client never half-closes in non-accepting cases so the server's own Close is observed. Groups of 2-11 connections authenticate at the same time with accepting and rejecting passwords of equal length while the validator yields before deciding. Non-trivial = non-accepting case with a continuation; distinct = (strategy, outcome kind, continuation placement, continuation message kinds).",
+		rule:        "connections to servers with ClearTextPassword(validator) or a custom failing AuthStrategy; validator outcome (accept / false / (false,error) / (true,error) / (nil ctx,false,error) / (nil ctx,false,nil)) is a function of the password; start-up packets optionally carry an accepting password as surplus behind their parameter list; in place of the password message: every frontend type byte, unterminated / empty / sub-minimum / oversized / truncated bodies, immediate EOF; continuations (pipelined in the same segment, or late after the rejection was observed) of Q/P/B/D/E/S/X messages and random bytes; the client never half-closes in non-accepting cases so the server's own Close is observed. Groups of 2-11 connections authenticate at the same time with accepting and rejecting passwords of equal length while the validator yields before deciding. Non-trivial = non-accepting case with a continuation; distinct = (strategy, outcome kind, continuation placement, continuation message kinds).",
 		need:        []string{"concurrent_authentication_groups", "rejected_with_pipelined_continuation", "rejected_with_late_continuation", "accepted_sessions_probed", "malformed_password_messages", "validator_errors", "server_close_observed"},
 		assumptions: append([]string{"an ErrorResponse after a validator error or a malformed message is allowed but not required; after validator=false an ErrorResponse with SQLSTATE class 28 is required"}, commonAssumptions...)}})
 }
@@ -68,6 +68,9 @@ func c01validator(ctx context.Context, database, username, password string) (con
 	case strings.HasPrefix(password, "errt:"):
 		// the password matched but a later step of the validator failed
 		return ctx, true, errors.New("validator: profile lookup failed after the password matched")
+	case strings.HasPrefix(password, "nil:"):
+		// a rejection that hands back no context and no error
+		return nil, false, nil
 	case strings.HasPrefix(password, "errn:"):
 		return nil, false, errors.New("validator backend unavailable (no context)")
 	}
@@ -100,6 +103,9 @@ func (c01) gen(rng *core.Rng) c01case {
 		k.Password = body
 		if strings.HasPrefix(body, "ok:") || strings.HasPrefix(body, "err") {
 			k.Password = "no:" + body
+		}
+		if k.Kind == "reject" && rng.Intn(3) == 0 {
+			k.Password = "nil:" + body
 		}
 	}
 	k.TypeByte = core.Pick(rng, []byte("QPBDECHSXdcfF\x00R"))
